@@ -400,6 +400,57 @@ def exprloc_leg(ck, harness, model, n):
                              **({"no_input": True} if bad[0] == "K" else {}))
     return nbad
 
+def linkorder_leg(ck, harness, n):
+    """what LinkLoc proves about WHICH link-time fault is reported, observed on the implementation: of several deferred records
+    that fail, the first in program order; an unresolved reference before any record (the reference check comes first)"""
+    rng = ck.rng
+    cases = []
+    for _ in range(n):
+        arch = rng.choice(asmk.ARCHES)
+        b = Builder(rng, arch)
+        b.fillers(0, 4)
+        marks = []
+        kinds = [rng.choice(["range", "range", "assert", "undef"]) for _ in range(rng.randrange(2, 5))]
+        if kinds.count("undef") > 1:
+            kinds = [k if k != "undef" or i == kinds.index("undef") else "range" for i, k in enumerate(kinds)]
+        for kd in kinds:
+            ind = rng.choice(["", " ", "\t"])
+            if kd == "range":
+                d, big = rng.choice([("@db", 300), ("@dw", 70000)])
+                b.text += ind + d + " " + rng.choice(["", "1, "])
+                marks.append((kd, b.mark()))
+                b.text += rng.choice(["lt9 + %d", "( lt9 ) + %d", "- ( 0 - lt9 - %d )"]) % big + "\n"
+            elif kd == "assert":
+                b.text += ind + "@assert "
+                marks.append((kd, b.mark()))
+                b.text += rng.choice(["lt9 - 5", "( lt9 == 6 )", "! lt9"]) + rng.choice(["", ', "m"']) + "\n"
+            else:
+                b.text += ind + rng.choice(["@db ", "@dw "]) + rng.choice(["", "lt9, ", "1 + "])
+                marks.append((kd, b.mark()))
+                b.text += "nosuch" + "\n"
+            b.fillers(0, 3)
+        b.text += "@defn lt9, 5\n@defn okfwd, $1234\n"
+        und = [m for k, m in marks if k == "undef"]
+        want = und[0] if und else marks[0][1]
+        cases.append({"arch": arch, "text": b.text, "want": want, "kinds": kinds})
+    icases = [asm_case(c["arch"], files={"/w/main.asm": c["text"]}) for c in cases]
+    res = [AsmResult(r) for r in run_cases(harness, icases)]
+    ck.evaluations += len(cases)
+    nbad = 0
+    for c, a, ic in zip(cases, res, icases):
+        d = parse_diag(a.msg) if (a.kind == "ERR" and a.msg) else None
+        got = (d[2][1], d[2][2]) if d else None
+        ck.count("link-order:%s:%s" % ("undef-first" if "undef" in c["kinds"] else "first-record", "located" if got else a.kind))
+        ck.nontriv(ic)
+        if a.kind != "ERR" or a.phase != "L" or got != tuple(c["want"]):
+            nbad += 1
+            if nbad <= 2:
+                ck.violation("several link-time faults (%s, %s): the diagnostic (%s phase %s) points at %s, the %s is at %d:%d" % (
+                    ", ".join(c["kinds"]), c["arch"], a.kind, a.phase, got, "undefined symbol" if "undef" in c["kinds"] else "first failing record", c["want"][0], c["want"][1]),
+                    {"mode": "asm", "arch": c["arch"], "files": {"/w/main.asm": c["text"]}, "harness_case": ic,
+                     "expected": "link-time diagnostic at %s" % (c["want"],), "got": (a.msg or a.raw)[:300]})
+    return nbad
+
 def trace_leg(ck, model, cases, res):
     """K: Trace.trace on the stack of sources the generator built vs the chain the implementation prints (read-time faults)"""
     jobs, keep = [], []
@@ -434,7 +485,7 @@ def run(ck):
                "payloads and line:column of every token and lexical error; ExprLoc.lptree (on the lexer model's tokens) vs the position "
                "the implementation reports for random operand expressions (unary leads, parentheses, ?:, @sizeof, continuations inside the "
                "expression) that are out of range (or, under @assert, false) at once, only at link time, or mention an undefined symbol (first mention), each also "
-               "against the position the generator counted; Trace.trace vs the printed include chain.  non-trivial = fault preceded by at least one "
+               "against the position the generator counted; Trace.trace vs the printed include chain; programs with two to four link-time faults (out-of-range deferred operands, false deferred assertions, one undefined symbol): the one reported is the one LinkLoc's theorems name - the undefined symbol if there is one, else the first failing record in program order.  non-trivial = fault preceded by at least one "
                "multi-line construct or wide character.")
     harness, model = asmk.setup(ck, PROP)
     rng = ck.rng
@@ -487,6 +538,7 @@ def run(ck):
     # K + O: located expressions; K: the include chain
     exprloc_leg(ck, harness, model, 6000 if thorough else 1500)
     trace_leg(ck, model, cases, res)
+    linkorder_leg(ck, harness, 1500 if thorough else 400)
     # K: lexer model vs implementation, with locations
     jobs = []
     for c in cases[: (4000 if thorough else 700)]:
